@@ -386,6 +386,21 @@ func init() {
 				return true
 			})
 		}
+		// cindex.syncChunks: what is known about a chunk that holds more records than the hull accounts for is dropped
+		dropsStale := false
+		if fd := funcDecl(cf, "cindex", "syncChunks"); fd == nil {
+			problem("cindex.syncChunks not found")
+		} else {
+			ast.Inspect(fd.Body, func(n ast.Node) bool {
+				if ce, ok := n.(*ast.CallExpr); ok && strings.HasSuffix(c07Sel(ce.Fun), ".dropStale") {
+					dropsStale = true
+				}
+				return true
+			})
+		}
+		l.p("/-- `cindex.syncChunks` drops the entry of a chunk that holds more records than its hull accounts for (`chkInfo.Recs`,")
+		l.p("persisted in the snapshot): the chunk is then handled like one the index does not know (repair of finding F06) -/")
+		l.p("def syncChunksDropsStaleEntries : Bool := %s", leanBool(dropsStale))
 		l.p("/-- `cindex.onWrite`: for a source the index has no entry for, the new entry counts as a new chunk (`newChk = true`) -/")
 		l.p("def onWriteUnknownSourceSetsNewChk : Bool := %s", leanBool(unknownSetsNew))
 		l.p("/-- `cindex.onWrite`: `if newChk && firstRec > 0 { makeCorrupted; return ErrTmIndexCorrupted }` — a chunk that is new to the")
